@@ -113,7 +113,7 @@ Proof. exact handoff. Qed.
 
 (* ... and only UNDER kernprof.  kernprof.main (the effect model of Cli/MainEffects.v, tied to
    kernprof.py by C19's in-process runs) takes the decorator over after the -s setup file has
-   run and hands it back in its finally: interleave in-process kernprof runs - any options, any
+   run and hands it back in its finally: interleave in-process kernprof runs - any options (also an output file that cannot be written), any
    outcome of the program, main returning or raising - with ordinary use of the decorator; the
    decorator object (decision, profiler, prefix, profilers created, exit hooks registered) ends
    exactly as the ordinary uses alone leave it by the stand-alone rules: the host's uses in the
@@ -122,6 +122,7 @@ Proof. exact handoff. Qed.
    (whose outputs are then written at exit as C14_outputs_exact says). *)
 Theorem C14_kernprof_run_leaves_decorator_to_its_own_rules :
   forall (acts : list MainEffects.act) (s : MainEffects.St),
+    MainEffectsProofs.acts_found acts = true ->        (* every run names a script / module that exists *)
     MainEffects.gp (MainEffects.exec_acts MainEffects.current s acts)
     = MainEffects.user_gp acts (MainEffects.cur (MainEffects.argv s)) (MainEffects.gp s).
 Proof. exact MainEffectsProofs.decorator_under_kernprof_gp. Qed.
